@@ -85,7 +85,7 @@ pub fn scenarios(tier: Tier) -> Vec<Scenario> {
         Tier::Quick => {
             add(1, 2, false, None, 2);
             add(1, 2, true, None, 2);
-            add(2, 1, false, None, 2);
+            add(2, 1, false, None, 1);
             add(1, 2, false, Some(1), 2);
             add(1, 1, false, Some(0), 2);
         }
